@@ -1,15 +1,13 @@
 CONSTANTS
-  ProtoIdx = {}
+  ProtoIdx = {0, 2}
   Literals <- LitQuick
-  ExploreOps <- ExploreCore
+  ExploreOps <- None
   ProbeOps <- None
-  Depth = 1
+  Depth = 0
   GetterCap = 4
   Emit = FALSE
   SetLengthGuard = TRUE
-INIT Init
-NEXT Next
-VIEW View
-INVARIANT Refines
-PROPERTY RefinesSpec
+INIT OInit
+NEXT ONext
+INVARIANT OEmit
 CHECK_DEADLOCK FALSE
